@@ -204,7 +204,7 @@ class Models:
                 sub = sub[len(sub) - vsnap.rank:]
                 return vsnap.get(sub)
             return vsnap
-        ex.arr_bulk(arr, newval, region=region)
+        ex.arr_bulk(arr, newval, region=region, pattern=[fixedc.get(k) for k in range(arr.rank)])
 
     def array_binop(self, ex, op, a, b):
         if op == "@":
@@ -897,7 +897,22 @@ def _install(M):
     def _ntrace(ex, a, k, l):
         from . import sums
         x = a[0].snapshot()
-        return sums.mk_sum(ex, x.shape[0], lambda i: x.get([i, i]))
+        ax1, ax2 = k.get("axis1", 0), k.get("axis2", 1)
+        if x.rank == 2:
+            return sums.mk_sum(ex, x.shape[0], lambda i: x.get([i, i]))
+        rest = [d for d in range(x.rank) if d not in (ax1, ax2)]
+        shape = tuple(x.shape[d] for d in rest)
+
+        def cell(xs):
+            def at(i):
+                idx = [None] * x.rank
+                for d, v in zip(rest, xs):
+                    idx[d] = v
+                idx[ax1] = i
+                idx[ax2] = i
+                return x.get(idx)
+            return sums.mk_sum(ex, x.shape[ax1], at)
+        return lam_array(shape, x.dtype, cell, name="trace")
 
     @reg("numpy.diag")
     def _ndiag(ex, a, k, l):
@@ -907,6 +922,65 @@ def _install(M):
             return lam_array((x.shape[0],), x.dtype, lambda xs: snap.get([xs[0], xs[0]]))
         return lam_array((x.shape[0], x.shape[0]), x.dtype,
                          lambda xs: ite(compare("==", xs[0], xs[1]), snap.get([xs[0]]), 0))
+
+    @reg("numpy.linalg.eigh")
+    def _eigh(ex, a, k, l):
+        """assumed contract: for a real symmetric argument returns real eigenvalues in ascending order and a real
+        matrix of eigenvectors (orthogonality / diagonalisation facts are added by the plans that need them)"""
+        h = a[0]
+        n = h.shape[0]
+        w = SymArr((n,), "real", name="eigvals")
+        S = SymArr((n, n), h.dtype if h.dtype == "cx" else "real", name="eigvecs")
+        i, j = fresh("i", z3.IntSort()), fresh("j", z3.IntSort())
+        ex.assume(V.canon_quant([i, j], z3.Implies(z3.And(0 <= i, i <= j, j < V.z3int(n)),
+                                                    w.get([i]) <= w.get([j]))))
+        ex.last_eigh = (h, w, S)
+        return (w, S)
+
+    @reg("numpy.linalg.eig")
+    def _eig(ex, a, k, l):
+        h = a[0]
+        n = h.shape[0]
+        return (SymArr((n,), "cx", name="eigvals"), SymArr((n, n), "cx", name="eigvecs"))
+
+    def _inv(ex, a, k, l):
+        """assumed contract: returns the inverse (of the same dtype); algebraic facts are added where needed"""
+        x = a[0]
+        r = SymArr(x.shape, x.dtype if x.dtype != "int" else "real", name="inv")
+        r.inverse_of = x
+        le = getattr(ex, "last_eigh", None)
+        if le is not None and le[2] is x and x.dtype != "cx":
+            # eigenvectors of a real symmetric matrix are orthonormal: the inverse is the transpose
+            ex.used_models.add("assume:inverse of eigh's eigenvector matrix (real symmetric argument) is its transpose")
+            i, kk = fresh("i", z3.IntSort()), fresh("k", z3.IntSort())
+            n = V.z3int(x.shape[0])
+            ex.assume(V.canon_quant([i, kk], z3.Implies(z3.And(0 <= i, i < n, 0 <= kk, kk < n),
+                                                         r.get([i, kk]) == x.get([kk, i]))))
+        return r
+    M.table["numpy.linalg.inv"] = Builtin("numpy.linalg.inv", _inv)
+    M.table["scipy.linalg.inv"] = Builtin("scipy.linalg.inv", _inv)
+
+    _prim = z3.Function("u_prim", z3.ArraySort(z3.IntSort(), z3.RealSort()), z3.ArraySort(z3.IntSort(), z3.RealSort()),
+                        z3.ArraySort(z3.IntSort(), z3.RealSort()))
+
+    @reg("scipy.interpolate.UnivariateSpline")
+    def _spline(ex, a, k, l):
+        """assumed contract: UnivariateSpline(t, y, s=0).antiderivative()(t) is a deterministic function prim(t, y) of
+        the two arrays with prim(t, y)[0] == 0 (integral from t[0])"""
+        t, y = a[0], a[1]
+        tre, _ = t.terms()
+        yre, _ = y.terms()
+
+        def antiderivative(ex_, a_, k_, l_):
+            def evaluate(ex__, a2, k2, l2):
+                if a2[0] is not t and not (a2[0].terms()[0].eq(tre)):
+                    raise Unsupported("spline antiderivative evaluated on a different grid")
+                res = SymArr(t.shape, "real", re=_prim(tre, yre), name="prim")
+                ex__.assume(res.get([0]) == 0)
+                return res
+            return Builtin("spline.antiderivative()", evaluate)
+        return Obj("UnivariateSpline(model)", {"antiderivative": Builtin("spline.antiderivative", antiderivative)})
+    M.table["scipy.interpolate.interpolate.UnivariateSpline"] = M.table["scipy.interpolate.UnivariateSpline"]
 
     M.table["numpy.float64"] = ModRef("numpy.float64")
     for cname in ("pi", "c", "e", "hbar", "k", "h", "epsilon_0", "N_A"):
